@@ -141,7 +141,7 @@ func New(id, tier string) *Check {
 	// internal deadline: exhaustive:false, never a violation
 	lim := 20 * time.Minute
 	if tier == "thorough" {
-		lim = 3 * time.Hour
+		lim = 100 * time.Minute
 	}
 	if s := os.Getenv("VERIF_DEADLINE_S"); s != "" {
 		if v, err := strconv.Atoi(s); err == nil {
@@ -149,6 +149,7 @@ func New(id, tier string) *Check {
 		}
 	}
 	c.deadline = c.start.Add(lim)
+	current = c
 	b, err := os.ReadFile(filepath.Join(Root(), "known_findings.json"))
 	if err == nil {
 		var all []Finding
@@ -384,6 +385,9 @@ func (c *Check) Broken(format string, a ...any) {
 	c.mu.Unlock()
 }
 
+// current is the check of this process (one check per process).
+var current *Check
+
 // Parallel executes f(i) for every i in [0,n): in a worker, for the indices
 // this worker claims; in single-process mode, for all of them in order.
 func Parallel(n int, f func(i int)) {
@@ -392,6 +396,10 @@ func Parallel(n int, f func(i int)) {
 	defer func() { inPar = false }()
 	if shardN == 0 {
 		for i := 0; i < n; i++ {
+			if current != nil && current.Expired() && current.Only == "" {
+				current.Cap(fmt.Sprintf("internal deadline reached in parallel section %d of %d items (items not yet started were skipped)", parSeq, n))
+				break
+			}
 			f(i)
 		}
 		return
@@ -402,6 +410,11 @@ func Parallel(n int, f func(i int)) {
 	off := shardK * n / shardN
 	for j := 0; j < n; j++ {
 		i := (off + j) % n
+		if current != nil && current.Expired() {
+			// internal deadline: stop claiming work; the run is reported as not exhaustive
+			current.Cap(fmt.Sprintf("internal deadline reached in parallel section %d of %d items (items not yet started were skipped)", parSeq, n))
+			break
+		}
 		fh, err := os.OpenFile(filepath.Join(dir, strconv.Itoa(i)), os.O_CREATE|os.O_EXCL|os.O_WRONLY, 0o644)
 		if err != nil {
 			continue // claimed by another worker
